@@ -16,7 +16,7 @@ import (
 // shallow but complete in breadth. Its bodies are ALL expressions of at most n nodes over
 // one alphabet that holds every expression kind of the grammar language:
 //
-//	terminals  'a'  "ab"  "aB"i  ""  [ab]  [^a]  [A-C]i  [\pL]  .
+//	terminals  'a'  "ab"  "aB"i  ""  [ab]  [^a]  [Zb-ca]i  [\pL]  .
 //	rule reference R (an ordinary rule with a display name, or a left-recursive rule when the
 //	             flag set has -support-left-recursion), rule reference T (a rule that is a single
 //	             terminal, with a display name), &{..} !{..} #{..} %{l}
@@ -46,7 +46,7 @@ type crossSpec struct {
 
 func crossLeaves() []*peg.Expr {
 	return []*peg.Expr{peg.Lit("a"), peg.Lit("ab"), peg.LitI("aB"), peg.Lit(""), peg.Cls(false, false, "a", "b"), peg.Cls(true, false, "a"),
-		peg.Cls(false, true, "A-C"), peg.Cls(false, false, `\pL`), peg.Any(), peg.Ref("R"), peg.Ref("T"), peg.AndCode(0), peg.NotCode(0), peg.StateCode(0), peg.Throw("l")}
+		peg.Cls(false, true, "Z", "b-c", "a"), peg.Cls(false, false, `\pL`), peg.Any(), peg.Ref("R"), peg.Ref("T"), peg.AndCode(0), peg.NotCode(0), peg.StateCode(0), peg.Throw("l")}
 }
 
 var crossMemo = map[int][]*peg.Expr{}
